@@ -11,6 +11,9 @@ import (
 
 var reDirPart = regexp.MustCompile(`[\w.\-]+/`)
 
+// (*state.Task).ID -> (*Task).ID
+var reRecvPkg = regexp.MustCompile(`^\((\*?)\w+\.`)
+
 // shortCallee strips the module prefix and directory parts from a function name:
 // (*github.com/snapcore/snapd/overlord/state.Task).SetStatus -> (*state.Task).SetStatus
 func shortCallee(name string) string {
@@ -41,7 +44,7 @@ func (fc *FnCtx) callGuards(c *ssa.CallCommon, args []Val, st *State) {
 			if v.Origin() != nil {
 				n = v.Origin().String()
 			}
-			targets = append(targets, shortCallee(n), v.Name())
+			targets = append(targets, shortCallee(n), v.Name(), reRecvPkg.ReplaceAllString(shortCallee(n), "($1"))
 		case *ssa.Builtin:
 			return
 		case *ssa.MakeClosure:
@@ -62,6 +65,15 @@ func (fc *FnCtx) callGuards(c *ssa.CallCommon, args []Val, st *State) {
 		if t, ok := a.(*Term); ok && i < len(c.Args) {
 			vals[fmt.Sprintf("arg%d", i)] = t
 			typs[fmt.Sprintf("arg%d", i)] = c.Args[i].Type()
+		}
+		// argNv: the concrete value behind an argument that is converted to an interface at the call
+		if i < len(c.Args) {
+			if mi, ok := c.Args[i].(*ssa.MakeInterface); ok {
+				if t, ok := fc.regs[mi.X].(*Term); ok {
+					vals[fmt.Sprintf("arg%dv", i)] = t
+					typs[fmt.Sprintf("arg%dv", i)] = mi.X.Type()
+				}
+			}
 		}
 	}
 	seen := map[*Guard]bool{}
